@@ -131,10 +131,9 @@ func (session *HermesSession) Run(workingDir string, args []string, logID string
 		//************ INPUT CURRENT DATE FOR FERTILIZATION FORECAST ************
 		PROG := driConfig.VirtualDateFertilizerPrediction
 		DAYOUT := driConfig.AnnualOutputDate + driConfig.EndDate[4:]
-		OUTDAY, OUTY := g.Datum(DAYOUT)
-		if OUTDAY > 365 {
-			OUTDAY = 365
-		}
+		_, OUTY := g.Datum(DAYOUT)
+		// the annual output date is a calendar date: its day of the year is one later in leap years
+		_, outMonth, outDay := KalenderDate(OUTY)
 		if OUTY >= g.ENDE {
 			g.ENDE = OUTY + 1
 		}
@@ -723,7 +722,7 @@ func (session *HermesSession) Run(workingDir string, args []string, logID string
 
 			// *********************** JAHRESAUSGABE ***************************
 			// *********************** ANNUAL OUTPUT ***************************
-			if g.TAG.Index+1 == OUTDAY {
+			if _, month, day := KalenderDate(ZEIT); month == outMonth && day == outDay {
 				g.AUS[JZ] = g.OUTSUM
 				g.SIC[JZ] = (g.SICKER - math.Abs(g.CAPSUM))
 				g.AUFNA[JZ] = g.AUFNASUM
